@@ -12,6 +12,7 @@
 // Stream part: operator<< into the four stream types, operator>> from the four stream types
 // against std::basic_string extraction on an identical stream.
 #define VF_MAIN_TU
+#include "early.h"
 #include "verif.h"
 #include "alloc.h"
 #include "crc.h"
@@ -24,6 +25,7 @@
 #include "st_format.h"
 #include "st_stdio.h"
 #include "st_iostream.h"
+#include "early_battery.h"
 
 using vf::Ctx;
 using vf::strf;
@@ -1126,6 +1128,7 @@ static void build(vf::Plan &plan, const vf::Opts &o)
                        return strf("stream contents [%s]", vf::hex_units(s.data(), s.size(), 16).c_str());
                    });
     }
+    vf_early::add_stage(plan);
 }
 
 VF_MAIN("C17", build)
